@@ -29,7 +29,8 @@ func c19Render(msg *BMPMessage, opts ...*bgp.MarshallingOption) string {
 
 func c19ParseEntry(name string, withOpt bool) *c19lib.Entry {
 	return &c19lib.Entry{
-		Name: name,
+		Name:  name,
+		Group: "bmp.parseBMPMessage",
 		Run: func(x *c19lib.Checker, data []byte) c19lib.Outcome {
 			var msg *BMPMessage
 			var err error
@@ -53,11 +54,16 @@ func c19ParseEntry(name string, withOpt bool) *c19lib.Entry {
 				// UPDATE (bmp.go parseBMPMessage: "return msg, err"), so that the caller still has the peer
 				// header: that value has to survive its own methods
 				o.OK = true
-				j, _ := json.Marshal(msg)
-				var b []byte
+				var j, b []byte
 				var serr error
+				if k, pm := c19lib.Guard(func() { j, _ = json.Marshal(msg) }); k != "" {
+					x.Violation("C19:value-with-error:"+k, "Route Monitoring message returned together with error %q panics in json.Marshal: %s", err, pm)
+				}
 				if k, pm := c19lib.Guard(func() { b, serr = msg.Serialize(opts...) }); k != "" {
-					x.Violation("C19:value-with-error:bmp.go:(*BMPRouteMonitoring).Serialize", "Route Monitoring message returned together with error %q panics in Serialize: %s", err, pm)
+					if rm := msg.Body.(*BMPRouteMonitoring); rm.BGPUpdate == nil {
+						k = "bmp.go:(*BMPRouteMonitoring).Serialize:nil-BGPUpdate"
+					}
+					x.Violation("C19:value-with-error:"+k, "Route Monitoring message returned together with error %q panics in Serialize: %s", err, pm)
 				}
 				o.Val = fmt.Sprintf("%s|%x|%v", j, b, serr)
 			case msg != nil:
@@ -73,7 +79,8 @@ func c19ParseEntry(name string, withOpt bool) *c19lib.Entry {
 
 func c19SplitEntry(atEOF bool) *c19lib.Entry {
 	return &c19lib.Entry{
-		Name: fmt.Sprintf("bmp.SplitBMP[atEOF=%v]", atEOF),
+		Name:  fmt.Sprintf("bmp.SplitBMP[atEOF=%v]", atEOF),
+		Group: "bmp.SplitBMP",
 		Run: func(x *c19lib.Checker, data []byte) c19lib.Outcome {
 			adv, tok, err := SplitBMP(data, atEOF)
 			if adv < 0 || adv > len(data) {
